@@ -203,6 +203,8 @@ class Harness:
                     data[k] = _ADDR.sub("0x?", val)  # object addresses differ between processes
             e.update(data)
         self.events.append(e)
+        if not S.stall_armed and (kind in ("shutdown-call", "stop-call", "sigint-sent") or (kind in ("raise", "return") and self.specs.get(pid, {}).get("trigger"))):
+            S.stall_armed = True  # stalls planned "after the trigger" start counting lines from here
         m = self.markers.get(kind if pid is None else "%s:%s" % (kind, pid))
         if m is not None:
             m.set()
